@@ -1,6 +1,6 @@
 ----------------------------- MODULE Trace_Hfsm -----------------------------
 (* Trace validation for C16.  The recorded file holds executions                                                   *)
-(*   {"e":"Prog","p":<program>}  {"e":"Call","c":[op,ev],"ret":..,"out":[..],"q":[..]} ...  {"e":"Reset"}          *)
+(*   {"e":"Prog","p":<program>}  ( {"e":"Begin","c":[op,ev]} {"e":"Call","c":[op,ev],"ret":..,"out":[..],"q":[..]} )*  {"e":"Reset"} *)
 (* produced by harness/c16_hfsm/driver.cpp on the real StateMachine.  For every Call line the reference semantics  *)
 (* (Hfsm!StepOf, the same operator the model checker explores) recomputes the call on the current program and      *)
 (* state; the line is accepted only if the observable events are EQUAL (kind, machine, ids, event, reported        *)
@@ -19,7 +19,8 @@ IsEv(e) == l <= Len(Log) /\ Log[l].e = e /\ l' = l + 1
 TInit == l = 1 /\ prog = <<>> /\ pi = 0 /\ st = <<>> /\ lastCall = <<0, 0>> /\ lastOut = <<>> /\ lastRet = [ret |-> FALSE, open |-> FALSE] /\ viol = {}
 TProg == /\ IsEv("Prog") /\ pi' = l /\ prog' = Log[l].p /\ st' = InitSt(Log[l].p) /\ lastCall' = <<0, 0>> /\ lastOut' = <<>>
          /\ lastRet' = [ret |-> FALSE, open |-> FALSE] /\ viol' = {}
-TCall == /\ IsEv("Call") /\ pi # 0
+TBegin == IsEv("Begin") /\ pi # 0 /\ UNCHANGED vars            \* the call is announced before it is made (replay of crashes)
+TCall == /\ IsEv("Call") /\ pi # 0 /\ Log[l - 1].e = "Begin" /\ Log[l - 1].c = Log[l].c
          /\ \E so \in StopOrders : \E x \in {StepOf(st, Log[l].c, so)} :
               /\ Visible(x.out) = Log[l].out
               /\ (x.ret.open \/ B2I(x.ret.ret) = Log[l].ret)
@@ -28,7 +29,7 @@ TCall == /\ IsEv("Call") /\ pi # 0
          /\ UNCHANGED <<prog, pi>>
 TReset == /\ IsEv("Reset") /\ pi' = 0 /\ prog' = <<>> /\ st' = <<>> /\ lastCall' = <<0, 0>> /\ lastOut' = <<>>
           /\ lastRet' = [ret |-> FALSE, open |-> FALSE] /\ viol' = {}
-TNext == TProg \/ TCall \/ TReset
+TNext == TProg \/ TBegin \/ TCall \/ TReset
 TSpec == TInit /\ [][TNext]_tvars
 
 Progress == TLCSet(42, IF l > TLCGet(42) THEN l ELSE TLCGet(42))
